@@ -28,6 +28,13 @@ func (f *Float) Value() float64 {
 }
 
 func (f *Float) HashKey() HashKey {
+	// A float that equals an int (2.0 == 2) hashes like that int, so that
+	// values which are == occupy one slot in a set and "in" agrees with ==.
+	if f.value >= -9223372036854775808.0 && f.value < 9223372036854775808.0 {
+		if i := int64(f.value); float64(i) == f.value {
+			return HashKey{Type: INT, IntValue: i}
+		}
+	}
 	return HashKey{Type: f.Type(), FltValue: f.value}
 }
 
